@@ -87,8 +87,8 @@ CLAIMS = {
         tech='abstract interpretation of MIR (trace partitioning, linear + monomial constraints), per-leaf entailment against spec regions',
         ref='5.C15'),
     'C16': dict(
-        text='static (engine E4): sub_language is summarised per pair of variants with recursive calls as induction hypothesis; every leaf must return false, or a formula implying a sufficient condition for inclusion that is sound for that pair (identity, Empty, Epsilon/nullable, complement contraposition with swapped operands, exists on (_,Union)/(Inter,_), forall on (Union,_)/(_,Inter)) or the concat_inclusion matcher; is_subsumed excludes the operand itself, remove_subsumed removes exactly the tested index, included_in delegates in order. R3 anchoring (necessary condition of the matcher): on every accepting path of concat_inclusion the rigidity of the first and last pattern was decided and a rigid one was matched by rigid_prefix_match / rigid_suffix_match on equally cut u and v. The matching loops of concat_inclusion are NOT decided (array-index arithmetic over unbounded pattern lists; DESIGN 7).',
-        note=TRUST + 'the rigid/flexible matching loops of concat_inclusion are taken as sound beyond the anchoring rule',
+        text='static (engine E4): sub_language is summarised per pair of variants with recursive calls as induction hypothesis; every leaf must return false, or a formula implying a sufficient condition for inclusion that is sound for that pair (identity, Empty, Epsilon/nullable, complement contraposition with swapped operands, exists on (_,Union)/(Inter,_), forall on (Union,_)/(_,Inter)) or the concat_inclusion matcher; is_subsumed excludes the operand itself, remove_subsumed removes exactly the tested index, included_in delegates in order. R3 anchoring (necessary condition of the matcher): on every accepting path of concat_inclusion the rigidity of the first and last pattern was decided and a rigid one was matched by rigid_prefix_match / rigid_suffix_match on equally cut u and v. ',
+        note=TRUST + 'the composition of the passes of concat_inclusion into language inclusion is argued on paper (DESIGN 5.C16)',
         tech='match-arm summaries with recursion as induction hypothesis, implication to a table of sound schemes decided propositionally',
         ref='5.C16'),
     'C17': dict(
@@ -119,6 +119,7 @@ EXTRA = {
     'C07': ' Complement keys are built only in ReManager::new and ReManager::make.',
     'C11': ' Helper tables: class_ids/picks/ranges start at position 0 of this partition; interval(i) is list[i].',
     'C14': ' Helper tables: Automaton::state/states, State accessors and delegations to its own partition, StateMapping::is_class_rep, StateInConstruction::new/add_transition, CompactTable accessors.',
+    'C16': ' R4 passes of concat_inclusion (base_patterns cuts maximal runs of equal rigidity; find_rigid_matches(_rev) search every rigid pattern in order from the running position and record the hit; set_flexible_regions; match_flexible_patterns; shift_pattern_start) and C16.H leaves (flexible_match only against exactly [Sigma*], rigid_match_at compares every position, prefix/suffix offsets, char_sets_of_pattern, next/prev_rigid_match report only positions where rigid_match_at holds); the composition of these into L(u) subset L(v) is the paper argument of DESIGN 5.C16.',
     'C15': ' right_mul_is_exact is total: no panic on any pair of ranges (the defect fixed in 2d0c002).',
 }
 
